@@ -25,7 +25,6 @@ import (
 	"context"
 	"encoding/json"
 	"fmt"
-	"os"
 	"sort"
 	"strings"
 	"testing"
@@ -193,7 +192,9 @@ type step struct {
 	// Kind: "claim" (our claim's controller reconciles), "other" (the other claim's controller),
 	// "xr" (the XR controller reconciles every XR), "delete" (user deletes our claim),
 	// "delete-other", "edit" (user edits our claim's spec.params), "ready" (provider marks composed
-	// resources ready), "gc" (Kubernetes garbage collector runs).
+	// resources ready), "gc" (Kubernetes garbage collector runs), "restart" (the claim controller
+	// process is replaced: new informer cache), "recreate" (user creates a claim of the same name
+	// again after the old one is gone).
 	Kind   string         `json:"kind"`
 	Faults []flt          `json:"faults,omitempty"`
 	Lag    int            `json:"lag,omitempty"`
@@ -233,7 +234,7 @@ func genCatchUp() *rapid.Generator[catchUp] {
 	})
 }
 
-var envKinds = []string{"xr", "delete", "edit", "ready", "gc", "other", "xr", "delete-other"}
+var envKinds = []string{"xr", "delete", "edit", "ready", "gc", "other", "xr", "delete-other", "recreate"}
 
 func genStep() *rapid.Generator[step] {
 	return rapid.Custom(func(t *rapid.T) step {
@@ -257,7 +258,7 @@ func genStep() *rapid.Generator[step] {
 		case 6, 7:
 			return step{Kind: "xr"}
 		default:
-			return step{Kind: rapid.SampledFrom([]string{"delete", "edit", "edit", "ready", "gc", "delete-other"}).Draw(t, "envkind")}
+			return step{Kind: rapid.SampledFrom([]string{"delete", "delete", "edit", "ready", "gc", "delete-other", "restart", "restart", "recreate"}).Draw(t, "envkind")}
 		}
 	})
 }
@@ -283,16 +284,20 @@ func planOf(fs []flt) map[int]verifsim.Fault {
 // wstate is the part of the oracle/cache state that must be rewound together with the store.
 type wstate struct {
 	// created: names of XRs ever created by a claim's controller (O1).
-	created map[claimID]map[string]bool
+	// Keyed by claim AND incarnation (ns/name#uid): a claim re-created under the same name is a new claim.
+	created map[string]map[string]bool
 	// refHist[key][i] is the spec.resourceRef.name of the i-th stored version of a claim ("" if none / absent).
 	refHist map[verifsim.Key][]string
+	// goneHist[key][i]: the i-th version is "removed from the store"; uidHist[key][i]: metadata.uid of the i-th version.
+	goneHist map[verifsim.Key][]bool
+	uidHist  map[verifsim.Key][]string
 	// seen: the newest version index of the claim its controller has observed (monotone cache).
 	seen  map[claimID]int
 	edits int
 }
 
 func (s wstate) clone() wstate {
-	o := wstate{created: map[claimID]map[string]bool{}, refHist: map[verifsim.Key][]string{}, seen: map[claimID]int{}, edits: s.edits}
+	o := wstate{created: map[string]map[string]bool{}, refHist: map[verifsim.Key][]string{}, goneHist: map[verifsim.Key][]bool{}, uidHist: map[verifsim.Key][]string{}, seen: map[claimID]int{}, edits: s.edits}
 	for k, v := range s.created {
 		o.created[k] = map[string]bool{}
 		for n := range v {
@@ -301,6 +306,12 @@ func (s wstate) clone() wstate {
 	}
 	for k, v := range s.refHist {
 		o.refHist[k] = append([]string(nil), v...)
+	}
+	for k, v := range s.goneHist {
+		o.goneHist[k] = append([]bool(nil), v...)
+	}
+	for k, v := range s.uidHist {
+		o.uidHist[k] = append([]string(nil), v...)
 	}
 	for k, v := range s.seen {
 		o.seen[k] = v
@@ -318,19 +329,27 @@ type world struct {
 	fail   func(format string, a ...any)
 
 	// facts about the most recent claim reconcile (for the non-triviality rule)
-	lastStaleRef bool     // the observed claim version's resourceRef differs from the stored one
-	lastLag      int      // effective lag of the run's FIRST claim read
-	lastReads    int      // claim reads of the run
-	taken        []string // names squatted by XRs bound to a same-named claim in another namespace
+	lastStaleRef bool // the observed claim version's resourceRef differs from the stored one
+	lastLag      int  // effective lag of the run's FIRST claim read
+	lastReads    int  // claim reads of the run
+	lastRemoved  bool // the observed claim version predates a removal of the claim from the store
+	// runUID: metadata.uid of the claim version the controller's current/last reconcile observed.
+	runUID map[claimID]string
+	// excluded is called when a generated case is steered away from the open known finding; noExclude
+	// disables the steering (the known-finding reproducer itself).
+	excluded  func()
+	noExclude bool
+	taken     []string // names squatted by XRs bound to a same-named claim in another namespace
 	// catch is the catch-up policy of the NEXT claim reconcile (consumed by it).
 	catch catchUp
 }
 
 var xrGK = verifenv.XRGVKDefault.GroupKind()
 
-// nonMonotone (manual exploration only, never set by the driver) lets a controller's cached view of
-// a claim go back in time between reconciles.
-var nonMonotone = os.Getenv("VERIF_C06_NONMONOTONE") != ""
+// knownKey is the ledger key of the open finding this check steers around (see TestVerifC06KnownStaleGoneClaimCSA).
+const knownKey = "csa-stale-read-of-deleted-claim-recreates-xr"
+
+var knownOpen = verifkit.OpenFinding("C06", knownKey)
 
 func refName(o verifsim.Obj) string {
 	s, _ := verifsim.Nested(o, "spec", "resourceRef", "name").(string)
@@ -378,7 +397,8 @@ func newWorld(sc scenario, fail func(string, ...any)) *world {
 	env := verifenv.NewXREnv()
 	env.XRD.Spec.ClaimNames = &extNames
 	w := &world{env: env, sim: env.Sim, sc: sc, fail: fail, claims: []claimID{sc.Claim},
-		st: wstate{created: map[claimID]map[string]bool{}, refHist: map[verifsim.Key][]string{}, seen: map[claimID]int{}}}
+		st:     wstate{created: map[string]map[string]bool{}, refHist: map[verifsim.Key][]string{}, goneHist: map[verifsim.Key][]bool{}, uidHist: map[verifsim.Key][]string{}, seen: map[claimID]int{}},
+		runUID: map[claimID]string{}}
 	w.ssaNow = sc.SSA && !sc.Upgrade
 	env.InstallComposition(composition(sc.Composed), 1)
 	w.sim.AddMonitor(w.monitor)
@@ -548,6 +568,13 @@ func (w *world) monitor(v *verifsim.View, wr *verifsim.Write) {
 			after = refName(wr.After)
 		}
 		w.st.refHist[wr.Key] = append(w.st.refHist[wr.Key], after)
+		gone := wr.After == nil || wr.Removed
+		w.st.goneHist[wr.Key] = append(w.st.goneHist[wr.Key], gone)
+		uid := ""
+		if !gone {
+			uid = verifsim.MetaString(wr.After, "uid")
+		}
+		w.st.uidHist[wr.Key] = append(w.st.uidHist[wr.Key], uid)
 		if before := refName(wr.Before); before != "" && wr.After != nil && !wr.Removed && after != before && strings.HasPrefix(wr.Actor, ctrlPrefix) {
 			v.Violate("O4 retry does not reuse the recorded name: %s changed the stored spec.resourceRef of claim %s from %q to %q (write #%d %s)", wr.Actor, wr.Key, before, after, wr.Seq, wr.Verb)
 		}
@@ -566,16 +593,28 @@ func (w *world) monitor(v *verifsim.View, wr *verifsim.Write) {
 			v.Violate("O5 hijack: %s modified XR %s whose claimRef names a different claim (%s %s %s/%s): write #%d %s changed=%v removed=%v\n before: %s\n after:  %s",
 				wr.Actor, wr.Key.Name, g, k, ns, n, wr.Seq, wr.Verb, wr.Changed, wr.Removed, short(verifsim.ObjDigest(wr.Before)), short(verifsim.ObjDigest(wr.After)))
 		}
+		stored := v.Get(c.key())
+		// O3 (binding half): an existing XR is newly bound to claim c on behalf of a claim (incarnation) that does not exist.
+		if wr.Before != nil && wr.After != nil && !wr.Removed && refNames(wr.After, c) && !refNames(wr.Before, c) {
+			if stored == nil {
+				v.Violate("O3 XR %s was bound to claim %s (write #%d %s) but the claim does not exist in the store", wr.Key.Name, c, wr.Seq, wr.Verb)
+			} else if u := verifsim.MetaString(stored, "uid"); w.runUID[c] != "" && u != w.runUID[c] {
+				v.Violate("O3 XR %s was bound to claim %s (write #%d %s) by a reconcile that observed claim uid %s, but the stored claim is a different object (uid %s)", wr.Key.Name, c, wr.Seq, wr.Verb, w.runUID[c], u)
+			}
+		}
 		// O1 + O3: an XR is created on behalf of claim c.
 		if wr.Before == nil && wr.After != nil {
-			if w.st.created[c] == nil {
-				w.st.created[c] = map[string]bool{}
+			inc := c.String() + "#" + verifsim.MetaString(stored, "uid")
+			if w.st.created[inc] == nil {
+				w.st.created[inc] = map[string]bool{}
 			}
-			w.st.created[c][wr.Key.Name] = true
-			if len(w.st.created[c]) > 1 {
-				v.Violate("O1 more than one XR: the controller of claim %s has created XRs under more than one name: %v (write #%d %s)", c, keys(w.st.created[c]), wr.Seq, wr.Verb)
+			w.st.created[inc][wr.Key.Name] = true
+			if len(w.st.created[inc]) > 1 {
+				v.Violate("O1 more than one XR: the controller of claim %s has created XRs under more than one name: %v (write #%d %s)", inc, keys(w.st.created[inc]), wr.Seq, wr.Verb)
 			}
-			stored := v.Get(c.key())
+			if stored != nil && w.runUID[c] != "" && verifsim.MetaString(stored, "uid") != w.runUID[c] {
+				v.Violate("O3 XR %s was created for claim %s (write #%d %s) by a reconcile that observed claim uid %s, but the stored claim is a different object (uid %s): no claim with the observed uid exists", wr.Key.Name, c, wr.Seq, wr.Verb, w.runUID[c], verifsim.MetaString(stored, "uid"))
+			}
 			if stored == nil {
 				v.Violate("O3 reference not recorded first: XR %s was created for claim %s (write #%d %s) but the claim does not exist in the store", wr.Key.Name, c, wr.Seq, wr.Verb)
 			} else if rn := refName(stored); rn != wr.Key.Name {
@@ -587,7 +626,9 @@ func (w *world) monitor(v *verifsim.View, wr *verifsim.Write) {
 	for _, c := range w.claims {
 		var have []string
 		for _, k := range v.List(xrGK) {
-			if carries(v.Get(k), c) {
+			// An XR that is already being deleted belongs to the past (possibly to a previous claim of this
+			// name); two XRs of ONE claim, one of them terminating, would still trip O1.
+			if o := v.Get(k); carries(o, c) && !verifsim.Terminating(o) {
 				have = append(have, k.Name)
 			}
 		}
@@ -624,7 +665,7 @@ func (w *world) check(ctx string) {
 // in time); `mid` performs environment steps just before the k-th API call of this reconcile.
 func (w *world) claimReconcile(c claimID, plan map[int]verifsim.Fault, lag int, mid map[int]string) (*verifsim.Run, error) {
 	run := w.sim.NewRun(c.actor(), plan)
-	w.lastStaleRef, w.lastLag, w.lastReads = false, 0, 0
+	w.lastStaleRef, w.lastLag, w.lastReads, w.lastRemoved = false, 0, 0, false
 	pol := w.catch
 	w.catch = catchUp{}
 	reads := 0
@@ -649,7 +690,7 @@ func (w *world) claimReconcile(c claimID, plan map[int]verifsim.Fault, lag int, 
 			l = 0
 		}
 		target := cur - l
-		if target < w.st.seen[c] && !nonMonotone {
+		if target < w.st.seen[c] {
 			target = w.st.seen[c]
 		}
 		if target < 0 {
@@ -658,7 +699,29 @@ func (w *world) claimReconcile(c claimID, plan map[int]verifsim.Fault, lag int, 
 		if target > cur {
 			target = cur
 		}
+		if knownOpen && !w.noExclude && !w.ssaNow {
+			// Open known finding (client-side syncer + a read of a claim version from before the claim was
+			// removed from the store): steer around it - the cache has at least seen the removal.
+			g := w.st.goneHist[k]
+			for i := cur; i > target; i-- {
+				if g[i] {
+					target = i
+					if w.excluded != nil {
+						w.excluded()
+					}
+					break
+				}
+			}
+		}
 		w.st.seen[c] = target
+		if reads == 0 {
+			w.runUID[c] = w.st.uidHist[k][target]
+		}
+		for i := target + 1; i <= cur; i++ {
+			if w.st.goneHist[k][i] && !w.st.goneHist[k][target] {
+				w.lastRemoved = true
+			}
+		}
 		if reads == 0 {
 			w.lastLag = cur - target
 		}
@@ -700,6 +763,10 @@ func (w *world) claimReconcile(c claimID, plan map[int]verifsim.Fault, lag int, 
 		}
 	}
 	_, err := r.Reconcile(context.Background(), reconcile.Request{NamespacedName: types.NamespacedName{Namespace: c.NS, Name: c.Name}})
+	if run.Crashed {
+		// The process died; its successor starts with a new informer cache.
+		w.restart()
+	}
 	for k, d := range before {
 		if after := verifsim.ObjDigest(w.sim.Get(k)); after != d {
 			w.sim.With(func(v *verifsim.View) {
@@ -711,6 +778,27 @@ func (w *world) claimReconcile(c claimID, plan map[int]verifsim.Fault, lag int, 
 		panic(err)
 	}
 	return run, err
+}
+
+// restart models a new claim-controller process (crash, upgrade, leader hand-over): its informer
+// cache is new, so what it shows is NOT bounded below by what the previous process had observed; it
+// lags the store by any number of writes - it may still show a claim that has since been deleted.
+// Within one process the view stays monotone.
+func (w *world) restart() {
+	w.st.seen = map[claimID]int{}
+}
+
+// createdFor returns the names of all XRs the controller created for any incarnation of claim c.
+func (w *world) createdFor(c claimID) []string {
+	m := map[string]bool{}
+	for inc, ns := range w.st.created {
+		if strings.HasPrefix(inc, c.String()+"#") {
+			for n := range ns {
+				m[n] = true
+			}
+		}
+	}
+	return keys(m)
 }
 
 func (w *world) xrReconcileAll() {
@@ -763,6 +851,13 @@ func (w *world) apply(st step) {
 		}
 	case "gc":
 		for i := 0; i < 10 && w.sim.GCStep(); i++ {
+		}
+	case "restart":
+		w.restart()
+	case "recreate":
+		// The user creates a claim with the same name again (a new object with a new UID) once the old one is gone.
+		if w.sim.Get(w.sc.Claim.key()) == nil {
+			_ = user.Create(ctx, newClaim(w.sc.Claim, w.sc.Params, w.sc.Labels, w.sc.Annotations, w.sc.DeletePolicy, ""))
 		}
 	}
 }
@@ -898,7 +993,7 @@ func refWriteAt(probe *verifsim.Run, log []verifsim.Write, c claimID, k int) boo
 // properties
 
 // sweepStages are the states at which the fault sweep is performed.
-var sweepStages = []string{"fresh", "bound", "steady", "edited", "deleting"}
+var sweepStages = []string{"fresh", "bound", "steady", "edited", "deleting", "gone", "gone+recreated"}
 
 // prefix brings a fresh world to the named stage with fault-free steps.
 func (w *world) prefix(stage string) {
@@ -907,7 +1002,7 @@ func (w *world) prefix(stage string) {
 	case "fresh":
 	case "bound":
 		rec()
-	case "steady", "edited", "deleting":
+	case "steady", "edited", "deleting", "gone", "gone+recreated":
 		rec()
 		w.xrReconcileAll()
 		w.apply(step{Kind: "ready"})
@@ -919,6 +1014,24 @@ func (w *world) prefix(stage string) {
 			w.apply(step{Kind: "edit"})
 		case "deleting":
 			w.apply(step{Kind: "delete"})
+		case "gone", "gone+recreated":
+			// The claim is deleted and finalized: XR deleted, finalizer removed, claim GONE from the store.
+			w.apply(step{Kind: "delete"})
+			for i := 0; i < 4; i++ {
+				rec()
+				w.xrReconcileAll()
+				w.apply(step{Kind: "gc"})
+			}
+			if stage == "gone+recreated" {
+				w.apply(step{Kind: "recreate"})
+				if w.sc.Seed%2 == 0 {
+					// ... and the new claim has already been bound to its own XR.
+					rec()
+					w.xrReconcileAll()
+				}
+			}
+			// The next reconcile is done by a new controller process whose cache may still show any old version.
+			w.restart()
 		}
 	}
 	w.check("prefix to stage " + stage)
@@ -927,7 +1040,7 @@ func (w *world) prefix(stage string) {
 // TestVerifC06Sweep: for a generated scenario and stage, every API call index of the next claim
 // reconcile is hit with every fault kind, followed by fault-free rounds.
 func TestVerifC06Sweep(t *testing.T) {
-	rec := verifkit.New(t, "C06", "scenario = claim content x pre-existing XR class {none, bound to another claim (organic/dangling; differs in name/namespace/both/kind), unbound; referenced or bystander} x {0-2 of the names the generator will draw are already XRs of a same-named claim in another namespace} x syncer {csa, ssa, csa->ssa upgrade} x stage {fresh, bound, steady, edited, deleting}; the next claim reconcile (claim read lagging 0..n writes; the lag is constant during the reconcile, or only the first k claim reads lag, or it decays by one per read) is swept over every API call index x {conflict, 500, NoMatch (discovery lag), lost reply, crash-before, crash-after}, then fault-free rounds (first one possibly stale) with the real XR reconciler; non-trivial = fault after-effect (crash-after/lost reply) on the claim Update that records resourceRef, or a claim read that lags a write of resourceRef, or the claim references an XR bound to another claim, or a generated candidate name is taken by another claim's XR")
+	rec := verifkit.New(t, "C06", "scenario = claim content x pre-existing XR class {none, bound to another claim (organic/dangling; differs in name/namespace/both/kind), unbound; referenced or bystander} x {0-2 of the names the generator will draw are already XRs of a same-named claim in another namespace} x syncer {csa, ssa, csa->ssa upgrade} x stage {fresh, bound, steady, edited, deleting, gone (claim deleted and finalized; reconcile by a new controller process), gone+recreated (same name, new UID)}; the next claim reconcile (claim read lagging 0..n writes; the lag is constant during the reconcile, or only the first k claim reads lag, or it decays by one per read) is swept over every API call index x {conflict, 500, NoMatch (discovery lag), lost reply, crash-before, crash-after}, then fault-free rounds (first one possibly stale) with the real XR reconciler; non-trivial = fault after-effect (crash-after/lost reply) on the claim Update that records resourceRef, or a claim read that lags a write of resourceRef, or the claim references an XR bound to another claim, or a generated candidate name is taken by another claim's XR, or the claim read predates the removal of the claim from the store")
 	rapid.Check(t, func(t *rapid.T) {
 		sc := genScenario().Draw(t, "scenario")
 		stage := rapid.SampledFrom(sweepStages).Draw(t, "stage")
@@ -945,6 +1058,10 @@ func TestVerifC06Sweep(t *testing.T) {
 			w.ssaNow = true
 		}
 		w.takeCandidates(sweepSeed(sc, stage))
+		w.excluded = rec.Excluded
+		if strings.HasPrefix(stage, "gone") {
+			lag += 5 // reach back across the removal (and the new claim's first versions)
+		}
 		// Once with a live claim read, once with a claim read that lags the store (if the claim has that many versions).
 		sweep(w, rec, stage, 0, catchUp{}, followLag)
 		for l := 1; l <= lag; l++ {
@@ -965,7 +1082,7 @@ func sweep(w *world, rec *verifkit.Recorder, stage string, lag int, catch catchU
 	utilrand.Seed(seed)
 	w.catch = catch
 	probe, _ := w.claimReconcile(sc.Claim, nil, lag, nil)
-	staleRef := w.lastStaleRef
+	staleRef, staleRemoved := w.lastStaleRef, w.lastRemoved
 	if lag > 0 && w.lastLag == 0 {
 		// The cache cannot lag here (the controller has already observed the newest version): same as the live sweep.
 		w.sim.Restore(base)
@@ -989,6 +1106,9 @@ func sweep(w *world, rec *verifkit.Recorder, stage string, lag int, catch catchU
 	rec.AddExtra("sweep_api_calls", K)
 	if staleRef {
 		rec.Label("stale-read-lags-resourceRef-write")
+	}
+	if staleRemoved {
+		rec.Label("sweep-stale-read-of-since-removed-claim/" + map[bool]string{true: "ssa", false: "csa"}[w.ssaNow] + "/" + stage)
 	}
 	w.settle(fmt.Sprintf("stage %s / fault-free probe (lag %d)", stage, lag), 3, followLag)
 	w.converged(fmt.Sprintf("stage %s / fault-free (lag %d)", stage, lag))
@@ -1027,10 +1147,10 @@ func sweep(w *world, rec *verifkit.Recorder, stage string, lag int, catch catchU
 					rec.Label("lookup-fault-nomatch/on-claim-get")
 				}
 			}
-			if crashOnRef || staleRef || foreignRef || hitTaken {
+			if crashOnRef || staleRef || foreignRef || hitTaken || staleRemoved {
 				rec.NonTrivial(fmt.Sprintf("%s|%s|%d|%d|%d|%v", verifkit.JSON(sc), stage, lag, followLag, k, f)+catch.String(), func() any {
 					return map[string]any{"scenario": sc, "stage": stage, "lag": lag, "catch_up": catch.String(), "fault": f.Kind.String(), "err": f.Err, "call_index": k, "call": callName(probe, k), "calls_in_reconcile": K,
-						"crash_after_resourceRef_update": crashOnRef, "stale_read_lags_resourceRef": staleRef, "foreign_referenced": foreignRef, "generated_candidate_taken_by_foreign_xr": hitTaken}
+						"crash_after_resourceRef_update": crashOnRef, "stale_read_lags_resourceRef": staleRef, "foreign_referenced": foreignRef, "generated_candidate_taken_by_foreign_xr": hitTaken, "stale_read_of_since_removed_claim": staleRemoved}
 				})
 			}
 		}
@@ -1051,13 +1171,14 @@ func callName(r *verifsim.Run, k int) string {
 // environment steps injected between two API calls of the reconcile) interleaved with the XR
 // controller, the other claim's controller, claim edits and claim deletion.
 func TestVerifC06Histories(t *testing.T) {
-	rec := verifkit.New(t, "C06", "random histories: claim reconciles each with 0-2 faults, a claim read lagging 0..6 writes (monotone cache; lag constant during the reconcile, or only the first k claim reads lag, or each read lags one write less) and optionally an environment step (XR reconcile, claim deletion, edit, other claim's reconcile) injected just before API call k; interleaved with XR reconciles, the other claim's controller, user edits/deletion, GC; then fault-free rounds; non-trivial as in the sweep")
+	rec := verifkit.New(t, "C06", "random histories: claim reconciles each with 0-2 faults, a claim read lagging 0..6 writes (monotone cache; lag constant during the reconcile, or only the first k claim reads lag, or each read lags one write less) and optionally an environment step (XR reconcile, claim deletion, edit, other claim's reconcile) injected just before API call k; interleaved with XR reconciles, the other claim's controller, user edits/deletion/re-creation under the same name, controller restarts (new cache: the view may again lag by any number of writes, even behind a deletion), GC; then fault-free rounds; non-trivial as in the sweep")
 	rapid.Check(t, func(t *rapid.T) {
 		sc := genScenario().Draw(t, "scenario")
 		rec.Eval()
 		rec.Label("config=" + sc.config())
 		rec.Label("pre=" + sc.Pre + fmt.Sprintf("/referenced=%v", sc.Referenced))
 		w := newWorld(sc, func(f string, a ...any) { t.Fatalf(f, a...) })
+		w.excluded = rec.Excluded
 		n := rapid.IntRange(1, 10).Draw(t, "nsteps")
 		var hist []step
 		nontrivial := (sc.Pre == preForeignOrganic || sc.Pre == preForeignDangling) && sc.Referenced
@@ -1083,6 +1204,10 @@ func TestVerifC06Histories(t *testing.T) {
 				if w.lastReads > 1 {
 					rec.Label("claim-re-read-within-reconcile")
 				}
+			}
+			if w.lastRemoved {
+				nontrivial = true
+				rec.Label("stale-read-of-since-removed-claim/" + map[bool]string{true: "ssa", false: "csa"}[w.ssaNow])
 			}
 			w.check(ctx)
 			for k := 0; k < run.N; k++ {
@@ -1161,7 +1286,7 @@ func TestVerifC06SanityBinds(t *testing.T) {
 		if n := xrNames(w); len(n) != 1 || refName(cm) != n[0] || !refNames(w.sim.Get(w.env.XRKey(n[0])), sc.Claim) {
 			t.Fatalf("%s: expected exactly one XR bound to the claim, XRs %v, claim ref %q", sc.config(), n, refName(cm))
 		}
-		if len(w.st.created[sc.Claim]) != 1 {
+		if len(w.createdFor(sc.Claim)) != 1 {
 			t.Fatalf("%s: oracle bookkeeping did not see the XR creation: %v", sc.config(), w.st.created)
 		}
 		if !strings.Contains(verifsim.ObjDigest(cm), `"Ready","status":"True"`) && !strings.Contains(verifsim.ObjDigest(cm), `"status":"True","type":"Ready"`) {
@@ -1312,39 +1437,9 @@ func TestVerifC06SanityForeign(t *testing.T) {
 		if xr := w.sim.Get(w.env.XRKey("static-xr")); !refNames(xr, sc.Claim) {
 			t.Fatalf("%s: positive control: the referenced unbound XR was not bound: %s", sc.config(), verifsim.ObjDigest(xr))
 		}
-		if len(w.st.created[sc.Claim]) != 0 || len(xrNames(w)) != 1 {
+		if len(w.createdFor(sc.Claim)) != 0 || len(xrNames(w)) != 1 {
 			t.Fatalf("%s: positive control: binding a static XR must not create another one: %v", sc.config(), xrNames(w))
 		}
-	}
-}
-
-// TestVerifC06ObservationTimeTravel records (never fails on) what happens OUTSIDE the cache model of
-// this check: if a controller's cached claim goes BACK in time (e.g. a restarted controller whose
-// informer lists from a lagging API server replica) after the claim was deleted and finalized, the
-// client-side syncer re-creates the recorded XR without touching the claim (no claim write, hence
-// no resourceVersion check), leaving an XR whose claim is gone; the server-side syncer always
-// updates the claim first and is refused. The number of XRs per claim stays <= 1 either way.
-func TestVerifC06ObservationTimeTravel(t *testing.T) {
-	rec := verifkit.New(t, "C06", "observation outside the monotone cache model (never a verdict)")
-	defer func(old bool) { nonMonotone = old }(nonMonotone)
-	for _, sc := range pinnedScenarios() {
-		if sc.Upgrade {
-			continue
-		}
-		nonMonotone = false
-		w := newWorld(sc, func(f string, a ...any) { t.Logf(f, a...) })
-		w.ssaNow = sc.SSA
-		_, _ = w.claimReconcile(sc.Claim, nil, 0, nil) // binds and creates the XR
-		w.apply(step{Kind: "delete"})
-		_, _ = w.claimReconcile(sc.Claim, nil, 0, nil) // deletes the XR, removes the finalizer: the claim is gone
-		gone := w.sim.Get(sc.Claim.key()) == nil && len(xrNames(w)) == 0
-		_ = w.sim.TakeViolations()
-		nonMonotone = true
-		_, _ = w.claimReconcile(sc.Claim, nil, 2, nil) // the cache travels back to "bound, not deleted"
-		recreated := gone && len(xrNames(w)) == 1
-		_ = w.sim.TakeViolations()
-		rec.Extra("observation_"+sc.config()+"_recreates_xr_for_deleted_claim_when_cache_goes_back_in_time", fmt.Sprint(recreated))
-		t.Logf("%s: claim+XR gone=%v, XR re-created from a time-travelling cache=%v", sc.config(), gone, recreated)
 	}
 }
 
@@ -1411,5 +1506,96 @@ func TestVerifC06PinnedCandidateTaken(t *testing.T) {
 				w.converged(ctx)
 			}
 		}
+	}
+}
+
+// goneWorld: bind, make ready, delete, finalize (the claim is GONE from the store and so is its XR),
+// optionally re-create a claim of the same name (new UID, optionally already bound to its own XR);
+// then a NEW controller process takes over.
+func goneWorld(t *testing.T, sc scenario, recreate, bindNew bool, fail func(string, ...any)) *world {
+	w := newWorld(sc, fail)
+	w.noExclude = true
+	w.ssaNow = sc.SSA
+	w.prefix("steady")
+	w.apply(step{Kind: "delete"})
+	for i := 0; i < 3; i++ {
+		_, _ = w.claimReconcile(sc.Claim, nil, 0, nil)
+		w.xrReconcileAll()
+		w.apply(step{Kind: "gc"})
+	}
+	if w.sim.Get(sc.Claim.key()) != nil || len(xrNames(w)) != 0 {
+		t.Fatalf("%s: setup: claim/XR not gone: %v", sc.config(), w.sim.AllKeys())
+	}
+	if recreate {
+		w.apply(step{Kind: "recreate"})
+		if bindNew {
+			_, _ = w.claimReconcile(sc.Claim, nil, 0, nil)
+			w.xrReconcileAll()
+		}
+	}
+	w.restart()
+	_ = w.sim.TakeViolations()
+	return w
+}
+
+// goneRows runs, for every lag, a reconcile by the new process that still reads an old claim version,
+// and returns the violations of the oracles (O1-O5) plus the structural outcome.
+func goneRows(t *testing.T, sc scenario) []string {
+	var out []string
+	for _, row := range []struct{ recreate, bindNew bool }{{false, false}, {true, false}, {true, true}} {
+		for lag := 1; lag <= 10; lag++ {
+			var vs []string
+			w := goneWorld(t, sc, row.recreate, row.bindNew, func(f string, a ...any) { vs = append(vs, fmt.Sprintf(f, a...)) })
+			_, _ = w.claimReconcile(sc.Claim, nil, lag, nil)
+			removed := w.lastRemoved
+			w.check(fmt.Sprintf("claim gone (recreated=%v, new claim bound=%v), new controller process reads the claim %d writes back", row.recreate, row.bindNew, lag))
+			if !removed {
+				if len(vs) > 0 {
+					t.Fatalf("%s: violation without a stale read of a removed claim: %v", sc.config(), vs)
+				}
+				continue
+			}
+			want := 0
+			if row.bindNew {
+				want = 1
+			}
+			if n := xrNames(w); len(n) != want && len(vs) == 0 {
+				vs = append(vs, fmt.Sprintf("XRs %v in the store (expected %d) but no oracle fired", n, want))
+			}
+			out = append(out, vs...)
+		}
+	}
+	return out
+}
+
+// TestVerifC06PinnedGoneClaimSSA: a reconcile that still reads a claim which has since been deleted and
+// finalized (ordinary informer lag of a new controller process) must not re-create or bind an XR:
+// the server-side syncer's unconditional claim Update is refused (NotFound / Conflict).
+func TestVerifC06PinnedGoneClaimSSA(t *testing.T) {
+	for _, sc := range pinnedScenarios() {
+		if !sc.SSA {
+			continue
+		}
+		if vs := goneRows(t, sc); len(vs) > 0 {
+			t.Fatalf("%s:\n%s", sc.config(), strings.Join(vs, "\n"))
+		}
+	}
+}
+
+// TestVerifC06KnownStaleGoneClaimCSA is the pinned reproducer of the ledger entry knownKey: the same
+// rows with the client-side syncer. While the entry is open, the generated search steers around the
+// class (client-side syncer + claim version from before the removal) and counts excluded_known.
+func TestVerifC06KnownStaleGoneClaimCSA(t *testing.T) {
+	rec := verifkit.New(t, "C06", "known-finding reproducer: client-side syncer, claim deleted and finalized (optionally re-created), new controller process reads a pre-deletion claim version")
+	rec.Eval()
+	sc := pinnedScenarios()[0]
+	vs := goneRows(t, sc)
+	switch {
+	case len(vs) == 0:
+		return
+	case knownOpen:
+		rec.KnownReproduced("client-side claim syncer re-creates the XR of a deleted and finalized claim when a new controller process still reads a pre-deletion version of the claim (no claim write, hence no resourceVersion/NotFound check, precedes the XR create); with a claim re-created under the same name two live XRs name that claim")
+	default:
+		t.Fatalf("client-side syncer, stale read of a since-removed claim:\n%s", strings.Join(vs[:min(len(vs), 6)], "\n"))
 	}
 }
